@@ -1,6 +1,8 @@
 """Stand-in for the optional `groestlcoin_hash` package (absent in this sandbox), shared by the translator and the C11
-harness so that the Groestlcoin Base58Check decoder is a real decoder with a *different* checksum hash:
-getHash(data, n) = sha256(PREFIX + data[:n]).  The Lean model uses the same definition (Gen/PstrKeys.grsPrefix)."""
+harnesses (C11, and through harness/grsenv.py C05/C08/C09/C10/C18) so that the Groestlcoin Base58Check code is real code
+with a *different* checksum hash: getHash(data, n) = sha256(PREFIX + data[:n]).  The Lean model uses the same definition
+(Gen/PstrKeys.grsPrefix, Model/Base58Hash.lean).  install() must run before pycoin.symbols.{grs,tgrs,grsrt} are imported:
+without a `groestlcoin_hash` module those files disable four parse entry points at import time."""
 import hashlib
 import sys
 import types
@@ -11,5 +13,6 @@ PREFIX = b"groestl-stand-in"
 def install():
     stub = types.ModuleType("groestlcoin_hash")
     stub.getHash = lambda data, n: hashlib.sha256(PREFIX + bytes(data[:n])).digest()
+    stub.STAND_IN = True
     sys.modules["groestlcoin_hash"] = stub   # overrides a real installation: the model mirrors the stand-in
     return stub
